@@ -420,6 +420,8 @@ def check(model, rep):
     check_kind(model, rep)
     from sa.forwarding import check_forwarding
     check_forwarding(model, rep, 'C17.forwarding', tuple(VARIABLE_ATTR.values()) + ('time_variables',))
+    from sa.forwarding import check_setter_stores
+    check_setter_stores(model, rep, 'C17.setter-stores', tuple(VARIABLE_ATTR.values()))
     from checks.c12 import check_reset
     check_reset(model, rep, R='C17.reset')
     check_export(model, rep)
